@@ -182,7 +182,7 @@ def _array_queries(r, key_prefix, case, sol, qs, n, dtype, tol_rel):
     return True
 
 
-def dense_invariants(r, key_prefix, case, a, f, dtype, richardson=False, ulps=16, rtol_rich=None, consts=None):
+def dense_invariants(r, key_prefix, case, a, f, dtype, richardson=False, ulps=16, rtol_rich=None, consts=None, exact=None):
     """Invariants of DESIGN 4/C06 on system `a` whose rhs is f(t, y).  Returns True when all hold."""
     consts = consts or {}
     sol = a.sol
@@ -275,6 +275,30 @@ def dense_invariants(r, key_prefix, case, a, f, dtype, richardson=False, ulps=16
         qs = np.concatenate([T[:-1] + (T[1:] - T[:-1]) * dtype(fr) for fr in (0.25, 0.75)] + [T])
         if not _array_queries(r, key_prefix, case, sol, qs, n, dtype, ulps * e):
             return False
+        # every piece is a cubic Hermite piece of one sub-step of the wrapped method: its end slopes are the right-hand side at ITS OWN end points
+        # (whatever the relation of those end points to the extrapolated rows)
+        for j, p in enumerate(pieces):
+            f0 = np.asarray(f(p.t0, np.asarray(p.p0), **consts)); f1 = np.asarray(f(p.t1, np.asarray(p.p1), **consts))
+            fs = max(1.0, float(np.max(np.abs(f0.astype(np.float64)))), float(np.max(np.abs(f1.astype(np.float64)))))
+            ys = max(1.0, float(np.max(np.abs(np.asarray(p.p0, dtype=np.float64)))), float(np.max(np.abs(np.asarray(p.p1, dtype=np.float64)))))
+            if p.m0 is None or p.m1 is None or np.max(np.abs(np.asarray(p.m0, dtype=LD) - f0)) > 4 * ulps * e * fs * ys or np.max(np.abs(np.asarray(p.m1, dtype=LD) - f1)) > 4 * ulps * e * fs * ys:
+                r.v(key_prefix + "/end-slopes-richardson", "the end slopes of a piece equal the right-hand side at the piece's end points", dict(case, piece=j),
+                    observed=dict(t0=float(p.t0), t1=float(p.t1), m0_defect=None if p.m0 is None else float(np.max(np.abs(np.asarray(p.m0, dtype=LD) - f0))),
+                                  m1_defect=None if p.m1 is None else float(np.max(np.abs(np.asarray(p.m1, dtype=LD) - f1)))), expected="equal at rounding level")
+                return False
+        if exact is not None:
+            # between grid points the solution stays of the order of the integrator's own error (the error of the recorded rows) and of the tolerance: the
+            # pieces of a wrapper are sub-steps of its base method, whose slopes are not f at the extrapolated rows, so the bound is wide (observed on the
+            # unchanged tree: up to 5x the row error for 4th/5th-order bases) - a piece built from a slope that belongs to another state is off by O(h^2)
+            rowerr = max(float(np.max(np.abs(Y[k].astype(LD) - np.asarray(exact(T[k]), dtype=LD)))) for k in range(n))
+            for k in range(n - 1):
+                for frac in (0.25, 0.5, 0.75):
+                    q = T[k] + (T[k + 1] - T[k]) * dtype(frac)
+                    err = float(np.max(np.abs(np.asarray(sol(q), dtype=LD) - np.asarray(exact(q), dtype=LD))))
+                    if err > 1e3 * tolr / 50 + 50 * rowerr:
+                        r.v(key_prefix + "/accuracy-richardson", "between grid points the dense solution is as accurate as the recorded rows allow", dict(case, step=k, frac=frac),
+                            observed=dict(q=float(q), err=err, row_error=rowerr), expected="<= 1e3 tol + 50 x error of the rows")
+                        return False
         if len(pieces) % (n - 1) != 0 and len(pieces) < n - 1:
             r.v(key_prefix + "/count", "Richardson pieces cover every recorded step", case, observed=dict(pieces=len(pieces), rows=n), expected=">= rows-1")
             return False
